@@ -66,6 +66,7 @@ def rule_mask(rep):
         raise ir.AnchorMissing("trait Resampler")
     for fn in tr["fns"]:
         if fn.get("body") and mask_param(fn):
+            facts.touch("trait Resampler::%s" % fn["name"], fn)
             targets.append(("trait Resampler", fn))
     for owner, fn in targets:
         p = mask_param(fn)
